@@ -3,11 +3,13 @@ package conc
 import (
 	"context"
 	"fmt"
+	"strings"
 	"sync"
 	"sync/atomic"
 	"time"
 
 	"github.com/junioryono/godi/v4"
+	"github.com/junioryono/godi/v4/verifh/core"
 	"github.com/junioryono/godi/v4/verifh/eng"
 )
 
@@ -20,12 +22,16 @@ import (
 // nested call returns nil at once; the outer Close completes, every instance is closed once.
 
 type reWorld struct {
-	mu      sync.Mutex
-	target  func() error // what the instance's Close calls
-	innerN  atomic.Int32
-	innerE  atomic.Value // non-nil error text of the nested call
-	closes  atomic.Int32
-	otherCl atomic.Int32
+	mu        sync.Mutex
+	target    func() error // what the instance's Close calls
+	innerN    atomic.Int32
+	innerDone atomic.Int32 // 1: the nested Close has returned
+	innerE    atomic.Value // non-nil error text of the nested call
+	closes    atomic.Int32
+	otherCl   atomic.Int32
+	otherN    int      // reOther instances created so far (guarded by mu)
+	order     []string // labels of the reOther instances in the order their Close ran (guarded by mu)
+	label     string   // label handed to the next reOther (guarded by mu)
 }
 
 var (
@@ -51,16 +57,34 @@ func (r *reCloser) Close() error {
 		if err := f(); err != nil {
 			r.w.innerE.Store(err.Error())
 		}
+		r.w.innerDone.CompareAndSwap(0, 1)
 	}
 	return nil
 }
 
-type reOther struct{ w *reWorld }
+type reOther struct {
+	w     *reWorld
+	label string
+}
 
-func (o *reOther) Close() error { o.w.otherCl.Add(1); return nil }
+func (o *reOther) Close() error {
+	o.w.otherCl.Add(1)
+	o.w.mu.Lock()
+	o.w.order = append(o.w.order, o.label)
+	o.w.mu.Unlock()
+	return nil
+}
 
-func reNewCloser(sc godi.Scope, p godi.Provider) *reCloser { return &reCloser{w: reGet(), sc: sc, p: p} }
-func reNewOther() *reOther                                { return &reOther{reGet()} }
+func reNewCloser(sc godi.Scope, p godi.Provider) *reCloser {
+	return &reCloser{w: reGet(), sc: sc, p: p}
+}
+func reNewOther() *reOther {
+	w := reGet()
+	w.mu.Lock()
+	defer w.mu.Unlock()
+	w.otherN++
+	return &reOther{w: w, label: w.label}
+}
 
 func runC12Reentrant(c *eng.Ctx, next func() (int, bool)) {
 	variants := []string{
@@ -70,6 +94,14 @@ func runC12Reentrant(c *eng.Ctx, next func() (int, bool)) {
 		"scoped-instance-closes-the-parent-that-is-closing-it",
 		"scoped-instance-closes-the-provider-that-is-closing-it",
 		"singleton-closes-the-provider-that-is-closing-it",
+		// the scope of the instance is closed first - by its user, or by its context - and the
+		// instance's Close then closes an ANCESTOR, whose cascade comes back to the scope that is
+		// waiting for this very Close method
+		"scoped-instance-closes-the-parent:own-scope-closed-directly",
+		"scoped-instance-closes-the-provider:own-scope-closed-directly",
+		"scoped-instance-closes-the-parent:own-scope-closed-by-cancel",
+		"scoped-instance-closes-the-provider:own-scope-closed-by-cancel",
+		"scoped-instance-closes-the-grandparent:own-scope-closed-directly",
 	}
 	for _, v := range variants {
 		idx, mine := next()
@@ -77,13 +109,36 @@ func runC12Reentrant(c *eng.Ctx, next func() (int, bool)) {
 			continue
 		}
 		c.R.Begin(idx)
-		reCase(c, idx, v)
+		reCase(c, "C12", idx, v)
 	}
 }
 
-func reCase(c *eng.Ctx, idx int, variant string) {
+func init() {
+	// the same executions judged for C11: the other instance of the descendant scope is closed
+	// before the instance of the ancestor, whoever runs the cascade
+	core.C11ReentrantClose = func(c *eng.Ctx, next func() (int, bool)) {
+		for _, v := range []string{
+			"scoped-instance-closes-the-parent-that-is-closing-it",
+			"scoped-instance-closes-the-parent:own-scope-closed-directly",
+			"scoped-instance-closes-the-provider:own-scope-closed-directly",
+			"scoped-instance-closes-the-grandparent:own-scope-closed-directly",
+		} {
+			idx, mine := next()
+			if !mine {
+				continue
+			}
+			c.R.Begin(idx)
+			reCase(c, "C11", idx, v)
+		}
+	}
+}
+
+func reCase(c *eng.Ctx, prop string, idx int, variant string) {
 	viol := func(clause, detail string) {
-		c.R.Violation(eng.Violation{Prop: "C12", Clause: clause, Sig: "C12/" + clause + ":close-called-from-inside-a-close-method:" + variant, Case: idx, CaseID: "reentrant-close-" + variant,
+		if prop != "C12" && clause != "descendant-instance-closed-after-ancestor-instance" {
+			return
+		}
+		c.R.Violation(eng.Violation{Prop: prop, Clause: clause, Sig: prop + "/" + clause + ":close-called-from-inside-a-close-method:" + variant, Case: idx, CaseID: "reentrant-close-" + variant,
 			Detail: variant + ": " + detail, Replay: map[string]any{"fixture": "reentrant-close", "variant": variant}})
 	}
 	w := &reWorld{}
@@ -108,14 +163,33 @@ func reCase(c *eng.Ctx, idx int, variant string) {
 	defer cancel()
 	parent, err := prov.CreateScope(ctx)
 	must(err)
-	child, err := parent.CreateScope(nil)
+	childCtx, cancelChild := context.WithCancel(context.Background())
+	defer cancelChild()
+	var mid godi.Scope = parent
+	if strings.Contains(variant, "grandparent") {
+		mid, err = parent.CreateScope(context.Background())
+		must(err)
+	}
+	var child godi.Scope
+	if strings.HasSuffix(variant, "own-scope-closed-by-cancel") || strings.HasSuffix(variant, "own-scope-closed-directly") {
+		child, err = mid.CreateScope(childCtx)
+	} else {
+		child, err = mid.CreateScope(nil)
+	}
 	must(err)
-	for _, s := range []godi.Scope{parent, child} {
-		if _, err := godi.Resolve[*reOther](s); err != nil {
+	for _, s := range []struct {
+		sc    godi.Scope
+		label string
+	}{{parent, "parent"}, {child, "child"}} {
+		w.mu.Lock()
+		w.label = s.label
+		w.mu.Unlock()
+		if _, err := godi.Resolve[*reOther](s.sc); err != nil {
 			must(err)
 		}
 	}
 	var outer func() error
+	byWatcher := false
 	wantClosers := 1
 	switch variant {
 	case "scoped-instance-closes-its-own-scope":
@@ -138,9 +212,29 @@ func reCase(c *eng.Ctx, idx int, variant string) {
 		_, err = godi.Resolve[*reCloser](child)
 		w.target = prov.Close
 		outer = prov.Close
-	default:
+	case "scoped-instance-closes-the-parent:own-scope-closed-directly", "scoped-instance-closes-the-grandparent:own-scope-closed-directly":
+		_, err = godi.Resolve[*reCloser](child)
+		w.target = parent.Close
+		outer = child.Close
+	case "scoped-instance-closes-the-provider:own-scope-closed-directly":
+		_, err = godi.Resolve[*reCloser](child)
+		w.target = prov.Close
+		outer = child.Close
+	case "scoped-instance-closes-the-parent:own-scope-closed-by-cancel":
+		_, err = godi.Resolve[*reCloser](child)
+		w.target = parent.Close
+		outer = func() error { cancelChild(); return nil }
+		byWatcher = true
+	case "scoped-instance-closes-the-provider:own-scope-closed-by-cancel":
+		_, err = godi.Resolve[*reCloser](child)
+		w.target = prov.Close
+		outer = func() error { cancelChild(); return nil }
+		byWatcher = true
+	case "singleton-closes-the-provider-that-is-closing-it":
 		w.target = prov.Close
 		outer = prov.Close
+	default:
+		panic("reentrant-close fixture: unknown variant " + variant)
 	}
 	must(err)
 	done := make(chan error, 1)
@@ -149,7 +243,9 @@ func reCase(c *eng.Ctx, idx int, variant string) {
 	finished := make(chan struct{})
 	go func() { outerErr = <-done; close(finished) }()
 	if v := awaitOrDiagnose(finished, 20*time.Second); !v.Done {
-		if v.Deadlock {
+		if prop != "C12" {
+			c.R.Inconclusive(idx, "re-entrant close case did not finish (the hang is C12's to report): the close order cannot be judged")
+		} else if v.Deadlock {
 			c.R.Violation(eng.Violation{Prop: "C12", Clause: "hang", Sig: "C12/hang:close-called-from-inside-a-close-method:" + variant + ":" + innermostGodiFn(v.Dump), Case: idx, CaseID: "reentrant-close-" + variant,
 				Detail: fmt.Sprintf("%s: the Close never returned; goroutines stuck inside godi:\n%s", variant, v.Dump), Replay: map[string]any{"fixture": "reentrant-close", "variant": variant}})
 		} else {
@@ -159,10 +255,30 @@ func reCase(c *eng.Ctx, idx int, variant string) {
 		return
 	}
 	if variant == "scoped-instance-closes-its-own-scope:closed-by-cancel" {
-		// the watcher goroutine closes the scope: bounded wait for the instance's Close
-		deadline := time.Now().Add(10 * time.Second)
-		for w.closes.Load() == 0 && time.Now().Before(deadline) {
-			time.Sleep(2 * time.Millisecond)
+		byWatcher = true
+	}
+	if byWatcher {
+		// the watcher goroutine closes the scope: bounded wait until the nested Close has come
+		// back to the instance's Close method (a watcher that never gets there is the hang)
+		returned := make(chan struct{})
+		go func() {
+			for w.innerDone.Load() == 0 {
+				time.Sleep(2 * time.Millisecond)
+			}
+			close(returned)
+		}()
+		if v := awaitOrDiagnose(returned, 20*time.Second); !v.Done {
+			w.innerDone.Store(-1) // releases the poller
+			if prop != "C12" {
+				c.R.Inconclusive(idx, "re-entrant close case did not finish (the hang is C12's to report): the close order cannot be judged")
+			} else if v.Deadlock {
+				c.R.Violation(eng.Violation{Prop: "C12", Clause: "hang", Sig: "C12/hang:close-called-from-inside-a-close-method:" + variant + ":" + innermostGodiFn(v.Dump), Case: idx, CaseID: "reentrant-close-" + variant,
+					Detail: fmt.Sprintf("%s: the Close called from the instance's Close method never returned; goroutines stuck inside godi:\n%s", variant, v.Dump), Replay: map[string]any{"fixture": "reentrant-close", "variant": variant}})
+			} else {
+				c.R.Inconclusive(idx, "re-entrant close case (closed by the context watcher) did not finish within the watchdog and no goroutine is provably stuck inside godi")
+			}
+			c.R.Abandon(idx)
+			return
 		}
 	}
 	if outerErr != nil {
@@ -175,6 +291,12 @@ func reCase(c *eng.Ctx, idx int, variant string) {
 		viol("not-closed", fmt.Sprintf("the instance's Close ran %d times", w.innerN.Load()))
 	}
 	_ = prov.Close()
+	w.mu.Lock()
+	order := append([]string(nil), w.order...)
+	w.mu.Unlock()
+	if len(order) == 2 && order[0] == "parent" && order[1] == "child" && !strings.Contains(variant, "closes-its-own-scope") {
+		viol("descendant-instance-closed-after-ancestor-instance", fmt.Sprintf("the instance of the ancestor scope was closed while an instance of the descendant scope was still open (close order %v)", order))
+	}
 	if n := w.closes.Load(); int(n) != wantClosers {
 		viol("close-count", fmt.Sprintf("the instance that closes again from its Close method was closed %d times", n))
 	}
